@@ -7,11 +7,65 @@ HOOK_COMMITS = ["af8767b"]
 # id -> (technique, level text, level note, design ref)
 BUILT = {
  "C01": ("reference-model monitor (exact integer arithmetic) over every operator overload, run in release and overflow-checked builds",
-         "held-on-observed-executions: each generated pair is pushed through ~135 call shapes and every result is compared by value with an exact model; strength comes from boundary-dense operand families (scale gaps at the power-of-ten algorithm switches, zeros with scale, ones written 1.00) and from running the same cases in an overflow-checked build",
+         "held-on-observed-executions: each generated pair is pushed through ~135 call shapes and every result is compared by value with an exact model; strength comes from boundary-dense operand families (scale gaps at the power-of-ten algorithm switches and at byte/word truncation points, zeros with scale, ones written 1.00) and from running the same cases in an overflow-checked build",
          "trusts num-bigint integer add/mul (shared with the crate) and the generator families; inputs not generated are not judged", "DESIGN.md section 5 C01"),
  "C02": ("reference-model monitor on 17 comparison forms + enumerated carry-boundary limb workload; rel vs overflow-checked build comparison",
-         "held-on-observed-executions: the model order (sign, adjusted exponent, aligned integers) is compared with every comparison operator in both operand orders, plus antisymmetry, transitivity on chains and sort; the carry-overflow boundary family of the word-wise equality loop is enumerated, not sampled",
+         "held-on-observed-executions: the model order (sign, adjusted exponent, aligned integers) is compared with every comparison operator in both operand orders, plus antisymmetry, transitivity on chains and sort; the carry-overflow boundary family of the word-wise equality loop and limb-damaged twins are enumerated, not sampled",
          "trusts num-bigint comparison/multiplication for the model; build-profile independence is checked for release vs overflow-checks+debug-assertions only", "DESIGN.md section 5 C02"),
+ "C03": ("recording-hasher monitor: byte stream and write boundaries of Hash for sets of model-equal representations, five hashers, HashSet round trips",
+         "held-on-observed-executions: equal values (by the model) must feed identical bytes in identical write calls to a recording hasher and agree under DefaultHasher, FNV, SipHash-1-3 and a chunk-sensitive hasher; zeros of any scale and arithmetic-built zeros included",
+         "scales bounded to +-10^5 as the statement allows; collision quality is reported, not judged", "DESIGN.md section 5 C03"),
+ "C04": ("render-then-reparse monitor over ten renderings with an exhaustive digit-length x scale grid and threshold oracle",
+         "held-on-observed-executions: every rendering must parse back value-equal, keep (digits, scale) where the statement says so, respect the Display thresholds and length bound; the 40 x 101 grid is enumerated, wide scales to +-10^15 sampled; one known finding (plain notation cannot keep a negative scale) is reported as KNOWN-FINDING",
+         "re-parsing uses the crate's own parser (judged separately by C05)", "DESIGN.md section 5 C04"),
+ "C05": ("differential monitor against a byte-level reference recogniser; exhaustive strings over an 11-symbol alphabet; mutation workload",
+         "held-on-observed-executions with an exhaustive core: every string up to length 6 (quick) / 8 (thorough) over {0,1,7,+,-,.,e,E,_,x,space} is judged accept/reject and exact (digits, scale); grammar-generated long numerals, extreme exponents, byte mutations incl. invalid UTF-8 and radix != 10 through all four entry points; panics are caught and judged",
+         "the recogniser is my reading of the statement's grammar (40 lines, independent of the crate)", "DESIGN.md section 5 C05"),
+ "C06": ("small-scope exhaustive + seeded reference-model monitor for with_scale_round / with_scale / round / round_pair / round_u32",
+         "held-on-observed-executions with exhaustive cores: all |n| < 2000 (quick) / 10^5 (thorough) x scales x targets x 7 modes against an independent machine-integer model; all 4200 round_pair arguments; long inputs with tie tails and carries against the BigInt model",
+         "round(n) is judged against HalfEven (the default build's mode; C20 covers other configurations)", "DESIGN.md section 5 C06"),
+ "C07": ("reference-model monitor over all precision-rounding entry points incl. Context sums",
+         "held-on-observed-executions: value equality with the model's rounding at the p-th digit for eight entry points (value, reference, big integer, negated input) and four add_refs forms; every p for short inputs; cancelling and far-apart sums",
+         "representation after a carry is not constrained beyond the value, as the statement allows", "DESIGN.md section 5 C07"),
+ "C08": ("integer-inequality monitor for correctly rounded division + primitive/float agreement + zero-divisor panic matrix (catch_unwind)",
+         "held-on-observed-executions: half-ulp and tie rules decided by exact integer comparisons; exactness from the reduced denominator; 294 zero-divisor call shapes per case must panic; all ownership forms identical",
+         "float divisors restricted to normal floats as the statement says; float zero divisors are not judged", "DESIGN.md section 5 C08"),
+ "C09": ("reference-model monitor for the truncated-division identity on five remainder forms + zero-divisor panics",
+         "held-on-observed-executions: exact value, magnitude bound, sign rule and independence from the divisor's sign checked separately; scale gaps to 10^4 in both directions",
+         "trusts num-bigint integer % for the model (the identity a = b*q + r is re-checked on every case)", "DESIGN.md section 5 C09"),
+ "C10": ("correct-rounding oracle from a verified integer-root bracket; directed-mode inequalities; value/reference/abs/copysign forms",
+         "held-on-observed-executions: exactly one admissible value per (x, p, mode), ties decided on the true value; constructed families for long inputs, perfect squares +- far unit, 5000../4999.. tails",
+         "integer square roots come from num-bigint but are bracket-verified before use", "DESIGN.md section 5 C10"),
+ "C11": ("correct-rounding oracle (cube root) with signed Floor/Ceiling, mirror-identity monitor",
+         "held-on-observed-executions: as C10 for k = 3 with all scale residues, plus cbrt(-x, m) = -cbrt(x, mirror m) on the crate's own outputs",
+         "integer cube roots are bracket-verified", "DESIGN.md section 5 C11"),
+ "C12": ("four-clause monitor for the reciprocal (sign, < 1 unit error by integer inequality, exactness, mirror identity) + loop-progress guard",
+         "held-on-observed-executions: termination is judged as bounded progress (iteration counts reported, cap 256); terminating reciprocals at and around their exact length; f64-underflow bit lengths",
+         "an unbounded loop that never reaches the guard site would only be seen by the watchdog (inconclusive)", "DESIGN.md section 5 C12"),
+ "C13": ("offline checker over the event log: Python decimal (libmpdec) exp at 150 digits is the oracle; in-process positivity and metamorphic monitors",
+         "held-on-observed-executions: every exp() call is logged and judged offline to one unit of the 100th digit; integers -120..120 (quick) / -1000..1000 (thorough) exhaustively",
+         "trusts libmpdec's correctly rounded exp", "DESIGN.md section 5 C13"),
+ "C14": ("exact binary-value oracle over enumerated f32 bit patterns (all 2^32 in thorough) and f64 boundary families; exact rational tolerance check for to_f64",
+         "held-on-observed-executions with exhaustive cores: 2^24 stratified f32 patterns quick, all 2^32 thorough; to_f64 judged by exact rational inequalities incl. the infinity and subnormal clauses",
+         "to_f64 is judged against the statement's tolerance, not optimal rounding", "DESIGN.md section 5 C14"),
+ "C15": ("reference-model monitor (trunc in the model) for all integer conversions near every type limit; constructor exactness",
+         "held-on-observed-executions: 12 target types on value and reference, to_bigint, is_integer; values within +-2 / +-0.5 of every MIN/MAX in several representations",
+         "none beyond the generators", "DESIGN.md section 5 C15"),
+ "C16": ("print-and-reparse monitor with an independent numeral recogniser; small-scope exhaustive {:.N}/{:.Ne}; flag-semantics oracle",
+         "held-on-observed-executions with exhaustive core: all |n| < 2000 / 10^5 x scales x N 0..9; 24 flag specifications x 5 format kinds must equal the unflagged numeral padded by the std rules",
+         "std::fmt padding semantics re-implemented in 15 lines as the oracle", "DESIGN.md section 5 C16"),
+ "C17": ("round-trip and digit-for-digit monitors over serde_json text, Value, json_num adapters and serde token deserializers",
+         "held-on-observed-executions: string form, json_num, json_num_option, JSON documents incl. malformed ones, integer/float/string tokens; limit clause at +-1 around the bound and at i64 extremes; one known finding (serde_json Value route via f64) is reported as KNOWN-FINDING",
+         "JSON number grammar and the serde_json dispatch predicate are re-implemented in the harness", "DESIGN.md section 5 C17"),
+ "C18": ("accessor-consistency and canonical-form monitors with an exhaustive power-of-ten sweep",
+         "held-on-observed-executions with exhaustive cores: 10^k, 10^k+-1 for every k (1200 quick / 5000 thorough), all small values x scales; digits from the decimal string, exact extensions, normalized form",
+         "none beyond the generators", "DESIGN.md section 5 C18"),
+ "C19": ("history monitor: straight-line programs evaluated step by step against an exact model, with ==/cmp/Hash cross-checks and history minimisation",
+         "held-on-observed-executions: every prefix of every program is a judged history; overloads and assignment forms chosen at random per step",
+         "program length bounded at 40 and digit growth capped", "DESIGN.md section 5 C19"),
+ "C20": ("configuration sweep: the harness is rebuilt under each RUST_BIGDECIMAL_* setting and the monitors of C06/C08/C10-C13/C16 run against the intended values",
+         "held-on-observed-executions over 10 (quick) / ~60 (thorough) build configurations covering every precision, mode, threshold and padding value; division exhaustive below 1000 at P <= 3; exp judged offline at the configured precision",
+         "2016 possible configurations are sampled; no_std and string-only builds are not explored", "DESIGN.md section 5 C20"),
 }
 
 TITLES = {}
